@@ -111,6 +111,7 @@ class Interp:
         self.inline_derived = False
         self.call_sites = {}
         self.auto_opaque = set()
+        self.closure_tsub = {}
         # opt-in: positions handed out by `enumerate` are the constants 0, 1, 2 ... (decides `if position > 0`)
         self.count_enumerate = False
         self.tsub = {}   # generic parameter name -> concrete type string, for the body being interpreted
@@ -255,6 +256,9 @@ class Interp:
         return ("const", "other", k)
 
     def const(self, op):
+        if self.tsub and op.get("d") in self.tsub and str(self.tsub[op["d"]]).lstrip("-").isdigit():
+            # a const generic parameter of the body being interpreted for a concrete instance (`RadixInt<16>`)
+            return ("const", "int", int(self.tsub[op["d"]]))
         if "fn" in op:
             key = op["fn"].get("resolved_full") or op["fn"]["full"]
             self.fnrefs[key] = op["fn"]
@@ -542,6 +546,13 @@ class Interp:
             ck = rv["ck"]
             if ck.startswith("PointerCoercion") or ck in ("Transmute", "PtrToPtr", "Subtype"):
                 if "ReifyFnPointer" in ck or "ClosureFnPointer" in ck or "Unsize" in ck or "MutToConstPointer" in ck or ck in ("PtrToPtr", "Subtype"):
+                    if "Unsize" in ck and "dyn " in self.f.ty_s(rv["to"]) and "dyn " not in self.f.ty_s(rv["from"]) and a[0] in ("ref", "box", "rref"):
+                        # a value put behind a trait object: remember what it is, so that a later call through the trait
+                        # object can be resolved to that type's own impl
+                        import re as _re
+                        src_ = _re.sub(r"^&(?:'\w+ )?(?:mut )?", "", self.subst(self.f.ty_s(rv["from"])))
+                        src_ = _re.sub(r"^std::boxed::Box<(.*)>$", r"\1", src_)
+                        st.known[("dyn", a)] = src_
                     return a
                 return ("op", "cast:" + ck, (a,))
             return ("op", "cast:%s:%s->%s" % (ck, self.f.ty_s(rv["from"]), self.f.ty_s(rv["to"])), (a,))
@@ -553,6 +564,9 @@ class Interp:
             if ak == "adt":
                 return ("adt", rv["adt"], rv["variant"], ops)
             if ak in ("closure", "coroutine", "coroutine_closure"):
+                if self.tsub:
+                    # a closure written inside a generic function sees that function's type parameters
+                    self.closure_tsub[rv["def"]] = dict(self.tsub)
                 return (ak if ak != "coroutine_closure" else "closure", rv["def"], ops)
             if ak == "array":
                 return ("op", "array", ops)
@@ -725,14 +739,71 @@ class Interp:
             self_s = self.subst(raw_self)
             if self_s != raw_self:
                 targs = [self.subst(self.f.ty_s(t_)) for t_ in (fn.get("args") or [])[1:]]
-                cands = [d_ for d_, b_ in self.f.bodies.items() if b_.get("name") == fn["name"] and not b_.get("parent")
-                         and (b_.get("impl") or {}).get("trait") == fn["trait"] and (b_.get("impl") or {}).get("self_s") == self_s
-                         and [x_ for x_ in ((b_.get("impl") or {}).get("trait_args") or [])] == targs[:len((b_.get("impl") or {}).get("trait_args") or [])]]
-                impl_path = cands[0] if len(cands) == 1 else None
+                def unify(pattern, concrete):
+                    """{param: argument} when `concrete` is an instance of the impl's self type `pattern` (`RadixInt<RADIX>`
+                    against `RadixInt<16>`); None otherwise"""
+                    if pattern == concrete:
+                        return {}
+                    if "<" not in pattern or pattern.split("<")[0] != concrete.split("<")[0]:
+                        return None
+                    def top(x):
+                        inner, out_, depth_, cur = x[x.index("<") + 1:x.rindex(">")], [], 0, ""
+                        for ch in inner:
+                            if ch in "<(":
+                                depth_ += 1
+                            elif ch in ">)":
+                                depth_ -= 1
+                            if ch == "," and depth_ == 0:
+                                out_.append(cur.strip())
+                                cur = ""
+                            else:
+                                cur += ch
+                        if cur.strip():
+                            out_.append(cur.strip())
+                        return out_
+                    pa, ca = top(pattern), top(concrete)
+                    if len(pa) != len(ca):
+                        return None
+                    m_ = {}
+                    for x_, y_ in zip(pa, ca):
+                        if x_ == y_:
+                            continue
+                        import re as _re
+                        if _re.fullmatch(r"[A-Z][A-Za-z0-9_]*", x_):
+                            m_[x_] = y_
+                        else:
+                            return None
+                    return m_
+                cands = []
+                for d_, b_ in self.f.bodies.items():
+                    im_ = b_.get("impl") or {}
+                    if b_.get("name") == fn["name"] and not b_.get("parent") and im_.get("trait") == fn["trait"] \
+                            and list(im_.get("trait_args") or []) == targs[:len(im_.get("trait_args") or [])]:
+                        u_ = unify(im_.get("self_s", ""), self_s)
+                        if u_ is not None:
+                            cands.append((d_, u_))
+                impl_path, extra_tsub = cands[0] if len(cands) == 1 else (None, None)
                 if impl_path:
-                    fn = dict(fn, resolved=impl_path, resolved_full=impl_path, resolved_local=True, resolved_kind="Item", gparams=[], resolved_args=[])
+                    # the method's own type parameters (`apply::<i128>`) keep their arguments; `Self` is now the impl's type
+                    gp_ = list(fn.get("gparams") or [])
+                    ta_ = list(fn.get("args") or [])
+                    keep_ = [(g_, t_) for g_, t_ in zip(gp_, ta_) if g_ != "Self"] if len(gp_) == len(ta_) else []
+                    n_trait = len((self.f.bodies[impl_path].get("impl") or {}).get("trait_args") or [])
+                    keep_ = keep_[n_trait:]
+                    fn = dict(fn, resolved=impl_path, resolved_full=impl_path, resolved_local=True, resolved_kind="Item",
+                              gparams=[g_ for g_, _ in keep_], resolved_args=[t_ for _, t_ in keep_], args=[t_ for _, t_ in keep_],
+                              extra_tsub=extra_tsub)
                     name, path = impl_path, impl_path
                     self.last_callee = name
+        if fn.get("resolved_kind") == "Virtual" and args and fn.get("trait") and ("dyn", args[0]) in st.known:
+            # a call through a trait object whose concrete type is known on this path (`let c: &dyn Container = map;`)
+            self_s = st.known[("dyn", args[0])]
+            cands = [d_ for d_, b_ in self.f.bodies.items() if b_.get("name") == fn["name"] and not b_.get("parent")
+                     and (b_.get("impl") or {}).get("trait") == fn["trait"] and (b_.get("impl") or {}).get("self_s") == self_s]
+            if len(cands) == 1:
+                fn = dict(fn, resolved=cands[0], resolved_full=cands[0], resolved_local=True, resolved_kind="Item", gparams=[], resolved_args=[])
+                name, path = cands[0], cands[0]
+                self.last_callee = name
         m = self.model(st, fn, name, path, args, depth, stack)
         if m is not None:
             return m
@@ -761,6 +832,8 @@ class Interp:
                 self.tsub = {g: self.subst(self.f.ty_s(t)) for g, t in zip(gp, ta)}
             else:
                 self.tsub = {}
+            if fn.get("extra_tsub"):
+                self.tsub = dict(self.tsub, **fn["extra_tsub"])
             try:
                 res = self.run_body(self.f.bodies[path], st, fid, depth + 1, stack)
             finally:
@@ -842,7 +915,13 @@ class Interp:
                     st.frames[fid][1] = f
                 for i, a in enumerate(args):
                     st.frames[fid][i + 2] = a
-                return self.run_body(b, st, fid, depth + 1, stack)
+                saved = self.tsub
+                if path in self.closure_tsub:
+                    self.tsub = dict(self.closure_tsub[path])
+                try:
+                    return self.run_body(b, st, fid, depth + 1, stack)
+                finally:
+                    self.tsub = saved
         term = ("call", "<apply>", (self.resolve(st, f),) + tuple(self.resolve(st, a) for a in args))
         st.events.append(("call", "<apply>", term[2]))
         return [(st, term)]
@@ -1125,6 +1204,16 @@ class Interp:
             return [(st, term)]
         if p.startswith("std::option::Option::<"):
             v = args[0]
+            if nm in ("or", "or_else", "xor", "zip") and nm in ("or", "or_else") and len(args) == 2:
+                out = []
+                for s2, var, pl in self.cases(st, v, O):
+                    if var == "Some":
+                        out.append((s2, self.mk(O, "Some", pl[0])))
+                    elif nm == "or":
+                        out.append((s2, args[1]))
+                    else:
+                        out.extend(self.apply(s2, args[1], [], depth, stack))
+                return out
             if nm in ("map", "ok_or", "ok_or_else", "unwrap_or", "cloned", "copied", "and_then", "unwrap_or_else", "is_some", "is_none", "map_or", "unwrap_or_default", "take", "as_ref", "as_deref", "filter"):
                 if nm == "take":
                     # Option::take(&mut opt): returns the old value, leaves None
